@@ -361,6 +361,35 @@ Definition otlp_log_build (res : otlp_res) (sc : otlp_scope) (r : otlp_rec) : ev
    (s2b "flags", SInt (Z.of_N (o_flags r)));
    (s2b "trace_id", SStr (id_or_attr (o_trace r) (s2b "trace_id") (o_attrs r)));
    (s2b "span_id", SStr (id_or_attr (o_span r) (s2b "span_id") (o_attrs r)))].
+(* the two trace-context identifiers, one at a time: what a record CARRIES for an identifier is its own
+   field when that is set, else the attribute of the same name (Go map: the last one wins), else nothing.
+   [otlp_id_spec] is the statement side (no reference to the other identifier); [id_or_attr] above is the code. *)
+Definition otlp_id_spec (own : bytes) (attr : option sval) : bytes :=
+  match own with
+  | [] => match attr with Some v => fmt_v v | None => [] end
+  | _ => own
+  end.
+Definition otlp_rec_attr (name : bytes) (r : otlp_rec) : option sval := lookup name (map_set_all (o_attrs r) []).
+(* NOT the code: both fall-backs under the guard of the FIRST identifier only (used to state that the
+   independence of the two fall-backs is a property of extractLogRecord, not of every such function) *)
+Definition otlp_ids_one_guard (r : otlp_rec) : bytes * bytes :=
+  match o_trace r with
+  | [] => (match otlp_rec_attr (s2b "trace_id") r with Some v => fmt_v v | None => [] end,
+           match otlp_rec_attr (s2b "span_id") r with Some v => fmt_v v | None => o_span r end)
+  | t => (t, o_span r)
+  end.
+(* a record that carries its identifiers in the given ways: 0 own field, 1 attribute only,
+   2 both with different values, 3 neither *)
+Definition otlp_id_rec (tm sm : N) (tf ta sf sa : bytes) : otlp_rec :=
+  let own m v := match m with 0 | 2 => v | _ => [] end in
+  let att m k v := match m with 1 | 2 => [(k, SStr v)] | _ => [] end in
+  {| o_time := 0; o_observed := 0; o_sevnum := 0%Z; o_sevtext := []; o_body := SStr []; 
+     o_attrs := att tm (s2b "trace_id") ta ++ att sm (s2b "span_id") sa; o_dropped := 0; o_flags := 0;
+     o_trace := own tm tf; o_span := own sm sf |}.
+(* the identifier carried in way m *)
+Definition otlp_id_carried (m : N) (f a : bytes) : bytes :=
+  match m with 0 => f | 1 => a | 2 => match f with [] => a | _ => f end | _ => [] end.
+
 (* the decoder sets the PLE time from the record (ingestLogs) *)
 Definition otlp_log_dec (r : otlp_rec) : option N := Some (o_time r / 1000000).
 
